@@ -45,7 +45,7 @@ def run(ctx):
     for si, st in enumerate(cachesys.STRATEGIES):
       if ctx.quick and (si + (0 if lim[0] is None else 1)) % 2:
         continue
-      cfg = dict(strategy=st, lag=0, buckets=wm.buckets)
+      cfg = dict(strategy=st, lag=0, buckets=wm.buckets, frac=(si % 2 == 0))     # every other strategy: fractional float timestamps
       r_ops, _ = cachesys.gen_workload(ctx.rng, nmetrics=3, nts=2, nstores=ctx.pick(4, 6), ndrains=0, nqueries=0)
       pre = ('m1',)
       # default schedule without faults tells how many backend calls there are
